@@ -1,6 +1,7 @@
 SPECIFICATION MCSpec
 CONSTANTS
   Nodes = {"a"}
+  SnapCarriesLP = TRUE
   Kinds = {"E"}
   MaxOps = 3
   MaxSys = 0
@@ -12,6 +13,7 @@ CONSTANTS
   MaxStep = 0
   MaxZombie = 0
   MaxSnap = 0
+  MaxForeign = 0
   Keeps = {0}
   Eager = TRUE
 INVARIANTS TypeOK C18_ControllerDispatches C18_IdleMeansPublished C18_IdContent C18_NoSkip C18_FirstOrder C18_LPSound I_DispAboveLP NoPanic
